@@ -75,7 +75,15 @@ std::unique_ptr<Mesh> Mesh::render(
         out = Dual<3>::walk<DCMesher>(t, settings);
         LIBFIVE_VERIF_POINT(verif::SITE_RENDER_PHASE, verif::PHASE_WALK, 1);
 
-        // TODO: check for early return here again
+        // Check for early return here again: a cancelled walk leaves its
+        // loops early and 'out' would be a partially built mesh.
+        if (settings.cancel.load()) {
+            // (the Root destructor frees the tree, as on the post-build path)
+            if (settings.progress_handler) {
+                settings.progress_handler->finish();
+            }
+            return nullptr;
+        }
         LIBFIVE_VERIF_POINT(verif::SITE_RENDER_PHASE, verif::PHASE_RESET, 0);
         t.reset(settings);
         LIBFIVE_VERIF_POINT(verif::SITE_RENDER_PHASE, verif::PHASE_RESET, 1);
@@ -101,6 +109,13 @@ std::unique_ptr<Mesh> Mesh::render(
         LIBFIVE_VERIF_POINT(verif::SITE_RENDER_PHASE, verif::PHASE_INDEX, 0);
         t->assignIndices(settings);
         LIBFIVE_VERIF_POINT(verif::SITE_RENDER_PHASE, verif::PHASE_INDEX, 1);
+        if (settings.cancel.load()) {
+            // (the Root destructor frees the tree, as on the post-build path)
+            if (settings.progress_handler) {
+                settings.progress_handler->finish();
+            }
+            return nullptr;
+        }
 
         LIBFIVE_VERIF_POINT(verif::SITE_RENDER_PHASE, verif::PHASE_WALK, 0);
         out = Dual<3>::walk_<SimplexMesher>(t, settings,
@@ -108,6 +123,13 @@ std::unique_ptr<Mesh> Mesh::render(
                     return SimplexMesher(brep, &es[i]);
                 });
         LIBFIVE_VERIF_POINT(verif::SITE_RENDER_PHASE, verif::PHASE_WALK, 1);
+        if (settings.cancel.load()) {
+            // (the Root destructor frees the tree, as on the post-build path)
+            if (settings.progress_handler) {
+                settings.progress_handler->finish();
+            }
+            return nullptr;
+        }
         LIBFIVE_VERIF_POINT(verif::SITE_RENDER_PHASE, verif::PHASE_RESET, 0);
         t.reset(settings);
         LIBFIVE_VERIF_POINT(verif::SITE_RENDER_PHASE, verif::PHASE_RESET, 1);
@@ -133,6 +155,13 @@ std::unique_ptr<Mesh> Mesh::render(
         LIBFIVE_VERIF_POINT(verif::SITE_RENDER_PHASE, verif::PHASE_INDEX, 0);
         t->assignIndices(settings);
         LIBFIVE_VERIF_POINT(verif::SITE_RENDER_PHASE, verif::PHASE_INDEX, 1);
+        if (settings.cancel.load()) {
+            // (the Root destructor frees the tree, as on the post-build path)
+            if (settings.progress_handler) {
+                settings.progress_handler->finish();
+            }
+            return nullptr;
+        }
 
         LIBFIVE_VERIF_POINT(verif::SITE_RENDER_PHASE, verif::PHASE_WALK, 0);
         out = Dual<3>::walk_<HybridMesher>(t, settings,
@@ -140,6 +169,13 @@ std::unique_ptr<Mesh> Mesh::render(
                     return HybridMesher(brep, &es[i]);
                 });
         LIBFIVE_VERIF_POINT(verif::SITE_RENDER_PHASE, verif::PHASE_WALK, 1);
+        if (settings.cancel.load()) {
+            // (the Root destructor frees the tree, as on the post-build path)
+            if (settings.progress_handler) {
+                settings.progress_handler->finish();
+            }
+            return nullptr;
+        }
         LIBFIVE_VERIF_POINT(verif::SITE_RENDER_PHASE, verif::PHASE_RESET, 0);
         t.reset(settings);
         LIBFIVE_VERIF_POINT(verif::SITE_RENDER_PHASE, verif::PHASE_RESET, 1);
